@@ -407,7 +407,16 @@ fn gen_c13(t: &mut Tape, labels: &mut Vec<&'static str>) -> Option<CliCase> {
     argv.extend(spec.case.argv.clone());
     argv.extend(gen_file_args(t, &spec, labels));
     spec.case.argv = argv;
+    log_filter(t, &mut spec.case, labels);
     Some(spec.case)
+}
+
+/// now and then the logger is told to print less (or nothing): the exit status and stdout must not depend on it
+fn log_filter(t: &mut Tape, case: &mut CliCase, labels: &mut Vec<&'static str>) {
+    if t.chance(30) {
+        case.env.insert("STYLUA_LOG".into(), ["stylua=off", "off", "stylua=error", "error"][t.pick(4)].into());
+        labels.push("env:STYLUA_LOG");
+    }
 }
 
 fn diff_files_reported(format: &str, stdout: &str) -> (BTreeSet<String>, usize) {
@@ -604,6 +613,7 @@ fn gen_c14(t: &mut Tape, labels: &mut Vec<&'static str>) -> Option<CliCase> {
         spec.case.env.insert("STYLUA_VERIF_FAULT".into(), f.join(","));
     }
     spec.case.argv = argv;
+    log_filter(t, &mut spec.case, labels);
     Some(spec.case)
 }
 
@@ -1273,6 +1283,7 @@ fn gen_c17(t: &mut Tape, labels: &mut Vec<&'static str>) -> Option<CliCase> {
     argv.push("-".into());
     case.argv = argv;
     case.stdin = Some(stdin);
+    log_filter(t, &mut case, labels);
     Some(case)
 }
 
